@@ -1,5 +1,8 @@
 """C06 - IPM file round trip: messages written are the messages read back; instances do not influence each other.
 
+0. TLC exhaustive (MC_Ipm): the composition Layout ; Frame ; Blocks and unblock ; records ; Reading at the model level -
+   every list of up to 2 (thorough 3) messages over a small universe, blocked (both block counts) and unblocked, and every
+   cut of every such file.
 1. TLC enumerates every interleaving of 2 writers and 2 readers (IpmMulti; quick: simulation sample, thorough: all
    25,200 schedules of programs 3,3,2,2); each schedule is replayed on real instances created up front, and the
    recorded interleaved execution is validated by Trace_Ipm, each instance against its own specification state.
@@ -172,8 +175,27 @@ def _drive_sizes(args):
     return out
 
 
+def model_check(rep, wd, tier):
+    """MC_Ipm: the composition Layout ; Frame ; Blocks / unblock ; records ; Reading at the model level (small P)"""
+    import json
+    cfg = {'1': {}, '2': {'field_type': 'LLVAR', 'field_length': 0}, '3': {'field_type': 'FIXED', 'field_length': 2},
+           '4': {'field_type': 'FIXED', 'field_length': 3, 'field_python_type': 'int'},
+           '48': {'field_type': 'LLLVAR', 'field_length': 0, 'field_processor': 'PDS'}}
+    uni = [{'MTI': '1240', 'DE3': '@@'}, {'MTI': '1240', 'DE2': '\x00\x00\x00\x00', 'DE4': 0},
+           {'MTI': '1644', 'DE2': '@', 'DE3': 'AB', 'PDS0001': '@@'}, {'MTI': '1740'}]
+    consts = isoc.consts(cfg, 'latin_1')
+    path = os.path.join(wd, 'mcipm.json')
+    json.dump({'consts': consts, 'traces': [], 'universe': [isoc.pdict(m) for m in uni]}, open(path, 'w'))
+    c = write_cfg(os.path.join(wd, 'MC_Ipm.cfg'), 'CONSTANTS P = %d T = 2 PAD = 64 MaxLen = 6000 MaxMsgs = %d\nSPECIFICATION Spec\n'
+                  'INVARIANT WellFormedUniverse\nINVARIANT ComposeInv\nINVARIANT CutInv\nCHECK_DEADLOCK FALSE\n' % ((7, 4) if tier == 'thorough' else (11, 3)))
+    res = core.run_tlc('MC_Ipm', c, wd, env={'TRACE_FILE': path}, workers=core.NCPU, timeout=3000)
+    core.require_ok(res, 'MC_Ipm')
+    rep.add_tlc('MC_Ipm exhaustive (composition at the model level)', res)
+
+
 def run(rep, wd, tier, seed):
     rep.assumptions += ['TLC 1.8 evaluates the TLA+ text correctly', 'file objects are io.BytesIO']
+    model_check(rep, wd, tier)
     prog, scheds = schedules(rep, wd, tier, seed)
     rep.extra['schedules_replayed'] = len(scheds)
     rep.replayed += len(scheds)
